@@ -35,4 +35,15 @@ JudgeBonds(X, obs, exc) ==
      ELSE IF \E p \in G : p \notin R THEN "bond-missed"
      ELSE IF \E p \in R : p \notin G THEN "spurious-bond"
      ELSE "ok"
+
+\* two atoms on a line parallel to x, positions in units of 1e-6 A (no squares: the numbers are too large for them)
+JudgeNear(X, obs, exc) ==
+  LET dx0 == X.atoms[1].pos[1] - X.atoms[2].pos[1]
+      dx == IF dx0 < 0 THEN -dx0 ELSE dx0
+      d == IF X.cell = <<>> THEN dx ELSE (IF X.cell[1][1] - dx < dx THEN X.cell[1][1] - dx ELSE dx)
+      bonded == d < Cut(X.atoms[1].el, X.atoms[2].el) * 10000
+  IN IF exc # "none" THEN "no-exception"
+     ELSE IF bonded /\ obs # <<<<0, 1>>>> THEN "bond-missed"
+     ELSE IF ~bonded /\ obs # <<>> THEN "spurious-bond"
+     ELSE "ok"
 =============================================================================
